@@ -34,6 +34,7 @@ pub const EXCLUDED: &[(&str, &str)] = &[
     ("number literals with exponent, trailing zeros, -0, |n| > 2^53", "1.7.1 keeps the literal spelling, 1.6 re-spells; succinctly documents i64/f64 arithmetic (jq-language.md)"),
     ("@uri", "reserved-character set changed in 1.7"),
     ("@base64d, @base32d", "error behaviour differs / 1.7 addition"),
+    ("@html", "jq 1.6 artefact: 1.6 escapes ' as &apos;, jq 1.7 and succinctly as &#39; (seen on \"it's\" | @html); the recorded golden format_html pins the other four entities"),
     ("format strings (@base64 @html @sh @uri) on non-strings, flatten(non-number)", "documented: limitations.md 'Where succinctly errors and jq does not'"),
     ("object keys / string interpolations / range bounds / limit counts with != 1 output", "documented: limitations.md (#354 key half), jq-language.md Known Limitations"),
     ("computed slice bounds, array-valued index keys", "documented: jq-language.md Known Limitations"),
@@ -765,7 +766,7 @@ impl<'a, 'b> Gen<'a, 'b> {
                     e1("(tojson | fromjson)", Shape::Str)
                 }
                 10 => {
-                    let b = *self.u.pick(&["@base64", "@html", "@sh", "@json", "@text", "tojson", "tostring"]);
+                    let b = *self.u.pick(&["@base64", "@sh", "@json", "@text", "tojson", "tostring"]);
                     self.op(b);
                     e1(b, Shape::Str)
                 }
@@ -1626,7 +1627,7 @@ impl<'a, 'b> Gen<'a, 'b> {
                     return a;
                 }
                 self.op("interpolation");
-                let f = if self.u.ratio(1, 20) { *self.u.pick(&["@json ", "@text ", "@html ", "@base64 "]) } else { "" };
+                let f = if self.u.ratio(1, 20) { *self.u.pick(&["@json ", "@text ", "@base64 "]) } else { "" };
                 if !f.is_empty() {
                     self.op("format-interp");
                 }
